@@ -114,6 +114,17 @@ alac_decode (ALAC_DECODER *p, struct BitBuffer *bits, int32_t *sampleBuffer, uin
 #define R_EXPECT(v)	((double) ((psf->norm_double == SF_TRUE ? 1.0 / ((float) 0x80000000) : 1.0) * (v)))
 #endif
 
+static const uint8_t *g_pakt_data ;
+static uint32_t g_pakt_len ;
+static int stub_get_chunk_size (SF_PRIVATE *psf, const SF_CHUNK_ITERATOR *it, SF_CHUNK_INFO *ci) { (void) psf ; (void) it ; ci->datalen = g_pakt_len ; return 0 ; }
+static int stub_get_chunk_data (SF_PRIVATE *psf, const SF_CHUNK_ITERATOR *it, SF_CHUNK_INFO *ci)
+{	uint32_t k ;
+	(void) psf ; (void) it ;
+	for (k = 0 ; k < 40 ; k++) if (k < g_pakt_len && k < ci->datalen) ((uint8_t *) ci->data) [k] = g_pakt_data [k] ;
+	return 0 ;
+}
+static SF_CHUNK_ITERATOR *stub_next_chunk_iterator (SF_PRIVATE *psf, SF_CHUNK_ITERATOR *it) { (void) psf ; (void) it ; return NULL ; }
+
 int
 main (void)
 {	SF_PRIVATE *psf = &g_psf ;
@@ -260,6 +271,39 @@ main (void)
 			VASSERT (plac->pakt_info->current == (uint32_t) blk + 1, "packet table cursor follows") ;
 			VASSERT (plac->partial_block_frames == (uint32_t) (nd_off % FPB), "position inside the packet = offset mod FPB") ;
 			VASSERT (plac->frames_this_block == nd_g, "frame count of the decoded packet installed") ;
+			} ;
+	}
+#elif defined (SEL_PAKT)
+	{	/* CAF 'pakt' chunk: the packet table written at close (alac_pakt_encode) is what a reader rebuilds from it
+		** (alac_pakt_read_decode) - any two packet sizes; a size the varint format cannot hold is refused, never mangled */
+		uint32_t nd_s0 = nondet_uint (), nd_s1 = nondet_uint (), size = 0 ;
+		uint8_t *enc ;
+		PAKT_INFO *back ;
+		VASSUME (nd_s0 >= 1 && nd_s1 >= 1) ;
+		psf->file.mode = SFM_WRITE ;
+		plac->pakt_info = alac_pakt_append (plac->pakt_info, nd_s0) ;
+		plac->pakt_info = alac_pakt_append (plac->pakt_info, nd_s1) ;
+		plac->partial_block_frames = P0 ;
+		psf->sf.frames = 2 * 4096 ;
+		enc = alac_pakt_encode (psf, &size) ;
+		if (enc == NULL)
+			VASSERT (nd_s0 > 0x0fffffff || nd_s1 > 0x0fffffff, "only sizes beyond 28 bits are refused") ;
+		else
+		{	/* independent reference decoder: big-endian base-128, high bit = continuation */
+			uint32_t pos = 24, v0 = 0, v1 = 0, n ;
+			VASSERT (size >= 26 && size <= 24 + 8 && V_OBJSIZE (enc) >= size, "encoded table lies inside its block") ;
+			for (n = 0 ; n < 4 ; n++) { uint8_t b = enc [pos ++] ; v0 = (v0 << 7) | (b & 0x7f) ; if (! (b & 0x80)) break ; } ;
+			for (n = 0 ; n < 4 ; n++) { uint8_t b = enc [pos ++] ; v1 = (v1 << 7) | (b & 0x7f) ; if (! (b & 0x80)) break ; } ;
+			VASSERT (v0 == nd_s0 && v1 == nd_s1 && pos == size, "pakt entries decode (reference varint decoder) to the packet sizes") ;
+			VASSERT (enc [7] == 2 && enc [0] == 0, "packet count field") ;
+			/* ... and the library's own reader rebuilds the same table */
+			g_pakt_data = enc ; g_pakt_len = size ;
+			psf->file.mode = SFM_READ ;
+			psf_store_read_chunk_str (&psf->rchunks, "pakt", 0, size) ;
+			psf->get_chunk_size = stub_get_chunk_size ; psf->get_chunk_data = stub_get_chunk_data ; psf->next_chunk_iterator = stub_next_chunk_iterator ;
+			back = alac_pakt_read_decode (psf, 0) ;
+			VASSERT (back != NULL && back->count == 2 && back->packet_size [0] == nd_s0 && back->packet_size [1] == nd_s1,
+					"alac_pakt_read_decode rebuilds the packet table that was written") ;
 			} ;
 	}
 #else
